@@ -147,6 +147,10 @@ def dHex (sg : Nat) (s : Str) : Nat :=
   else if e2 ≥ 0 then sg + dOfRat (hv * 2 ^ e2.toNat) 1
   else sg + dOfRat hv (2 ^ (-e2).toNat)
 
+/-- `(double)n` of a natural number of any size: below 2^64 the integer conversion `dOfRat n 1` (proved correctly rounded in
+    LemmasIeee.lean), above it the rounding with a checked grid exponent (IeeeRat.lean; `atof_rounding_correct`) -/
+def dOfNat (n : Nat) : Nat := if n < 2 ^ 64 then dOfRat n 1 else Rat.dOfRatQ n 1
+
 /-- decimal float after the sign: digits, optional fraction, optional exponent; no digit at all = no conversion = +0.0 -/
 def dDecimal (sg : Nat) (s : Str) : Nat :=
   let (ip, r) := takeDigits s
@@ -161,7 +165,7 @@ def dDecimal (sg : Nat) (s : Str) : Nat :=
     if dv == 0 then sg
     else if e10 > 400 then sg + 2047 * 2 ^ 52
     else if e10 < -800 then sg
-    else if e10 ≥ 0 then sg + dOfRat (dv * 10 ^ e10.toNat) 1
+    else if e10 ≥ 0 then sg + dOfNat (dv * 10 ^ e10.toNat)
     else sg + Rat.dOfRatQ dv (10 ^ (-e10).toNat)      -- checked grid exponent (IeeeRat.lean), proved correctly rounded
 
 /-- what follows the optional sign -/
